@@ -65,7 +65,7 @@ class Program:
 
     def rand_prm(self):
         rnd = self.rnd
-        kind = rnd.choice(["scalar", "cohort", "lab", "both"])
+        kind = rnd.choice(["scalar", "cohort", "lab", "both", "growing"])
         if self.nl == 1 and kind == "lab":
             kind = "scalar"
         lo = 8 * self.dtmax + 8 if (self.cls == "stock" and self.setting in ("start", "middle")) else 4
@@ -73,6 +73,11 @@ class Program:
 
         def val():
             return rnd.randint(lo, hi)
+        if kind == "growing":
+            # lifetimes growing fast over the cohorts: later cohorts stay for more steps than the first one does
+            g = 8 * self.dtmax * rnd.choice([1, 2])
+            pl = [rnd.choice([0, 8]) for _ in range(self.nl)]
+            return "both", [[lo + g * c + pl[li] for li in range(self.nl)] for c in range(self.n)]
         base = val()
         pc = [0] * self.n if kind in ("scalar", "lab") else [rnd.randint(0, 24) for _ in range(self.n)]
         pl = [0] * self.nl if kind in ("scalar", "cohort") else [rnd.randint(0, 24) for _ in range(self.nl)]
@@ -119,7 +124,7 @@ class Program:
         return {"driver": driver, "driver2": driver2, "prm8": table}
 
     def ev(self, **kw):
-        base = {"op": "", "t": 0, "lab": 0, "val": 0, "prm8": [], "outcome": "", "stock": [], "inflow": [], "outflow": [], "sbc": [], "sf": []}
+        base = {"op": "", "t": 0, "lab": 0, "val": 0, "prm8": [], "outcome": "", "stock": [], "inflow": [], "outflow": [], "sbc": [], "obc": [], "sf": []}
         base.update(kw)
         self.events.append(base)
 
@@ -144,6 +149,7 @@ class Program:
                   outflow=self.tab1(st.outflow.values))
         if self.cls != "flow":
             kw["sbc"] = self.tab2(st.get_stock_by_cohort())
+            kw["obc"] = self.tab2(st.get_outflow_by_cohort())
             kw["sf"] = self.tab2(st.lifetime_model.sf)
         self.ev(**kw)
 
@@ -161,11 +167,22 @@ class Program:
         S2 = Setup(self.cfg(kind, table))
         arg = S2.prm_argument(self.rnd.randint(0, 5))
         name = "mean" if self.family == "fixed" else "period"
-        self.st.lifetime_model.set_prms(**{name: arg})
+        try:
+            self.st.lifetime_model.set_prms(**{name: arg})
+        except Exception as e:
+            self.ev(op="set_prm_raised", outcome=f"{type(e).__name__}: {str(e)[:100]}")     # a well-formed parameter was refused
+            return
         self.ev(op="set_prm", prm8=table)
 
     def run(self, nsteps):
-        init = self.build()
+        try:
+            init = self.build()
+        except Exception as e:
+            self.cls = self.cls if hasattr(self, "cls") else "?"
+            z = [[0] * self.nl for _ in range(self.n)]
+            self.ev(op="build_raised", outcome=f"{type(e).__name__}: {str(e)[:100]}")
+            return {"grid": self.grid, "nl": self.nl, "family": self.family, "setting": self.setting, "cls": self.cls, "solver": self.solver,
+                    "init": {"driver": z, "driver2": z, "prm8": [[8] * self.nl for _ in range(self.n)]}, "events": self.events}
         self.do_compute()
         while len(self.events) < nsteps:
             r = self.rnd.random()
